@@ -519,6 +519,12 @@ func (ex *Exec) callContractVars(c *Contract, params []*types.Var, sig *types.Si
 			ex.setH(st, k, ite(r, nv, prev))
 		}
 	}
+	for _, cl := range c.AssumedEnsures {
+		if g, ok := ex.tryCallClause(c, cl, env, st, old); ok {
+			ex.assume(imp(r, g))
+			ex.used["ASSUMED postcondition "+c.Name+"["+cl.Label+"]: not proved on the function's body"] = true
+		}
+	}
 	for _, cl := range c.Ensures {
 		g, ok := ex.tryCallClause(c, cl, env, st, old)
 		if !ok {
